@@ -6,6 +6,9 @@ A case is JSON:
   ITEM = {"p": [sx, sy, sz, sr]} | {"color": "Red"} | {"comment": "text"}   (numbers as spelled strings "text=n/d")
        | {"long": [seed, count]}                                    a run of `count` generated points
   ALT  = null (an empty alternative) | BR
+  BR may also be {"spine": [seed, depth, where]}: a generated spine of splits nested `depth` levels deep (hundreds to
+  thousands), expanded by expand() to the plain form; `where` = first | middle | last | mixed says in which alternative of
+  each three-way split the nesting continues (the other two are a single point or empty).
 The text and the expected table are pure functions of the case (render()).
 """
 from fractions import Fraction
@@ -87,6 +90,11 @@ def document(draw, tier):
             items.append({"long": [draw(st.integers(0, 2 ** 31 - 1)), draw(st.integers(2, 9))]})
             items.append({"comment": draw(long_text)})
         br = {"items": items, "split": [draw(branch(1, 3, 2)), None] if draw(st.booleans()) else None}
+    elif mode == 3:
+        # splits nested hundreds to thousands of levels deep ("at any nesting depth"): far beyond what an interpreter's
+        # default recursion limit lets a reader recurse through
+        br = {"spine": [draw(st.integers(0, 2 ** 31 - 1)), draw(st.sampled_from([300, 600, 900, 1200, 2500, 6000])),
+                        draw(st.sampled_from(["first", "last", "middle", "mixed"]))]}
     elif mode == 0:
         depth = draw(st.integers(8, 12 if tier == "quick" else 150))
         br = draw(deep_branch(depth, draw(st.sampled_from(["first", "last", "middle", "mixed"]))))
@@ -109,6 +117,46 @@ def document(draw, tier):
 
 
 # ----------------------------------------------------------------------------- rendering
+class _deep_recursion:
+    """The harness's own walks over a case are recursive; documents nested thousands of levels deep need a higher
+    interpreter limit while *the harness* renders them.  The limit is restored before the library is called."""
+
+    def __enter__(self):
+        import sys
+
+        self.old = sys.getrecursionlimit()
+        sys.setrecursionlimit(max(self.old, 200000))
+
+    def __exit__(self, *a):
+        import sys
+
+        sys.setrecursionlimit(self.old)
+
+
+def _spine(seed, depth, where):
+    rs = np.random.RandomState(seed % (2 ** 32))
+
+    def pt():
+        v = rs.randint(-2000, 2000, size=4)
+        r = abs(int(v[3])) + 1
+        return {"p": [f"{int(a) / 100:.2f}={int(a)}/100" for a in v[:3]] + [f"{r / 100:.2f}={r}/100"]}
+
+    b = {"items": [pt()], "split": None}
+    for _ in range(depth):
+        pos = {"first": 0, "last": 2, "middle": 1}[where] if where != "mixed" else int(rs.randint(0, 3))
+        alts = [None if rs.randint(0, 4) == 0 else {"items": [pt()], "split": None} for _ in range(3)]
+        alts[pos] = b
+        b = {"items": [pt()], "split": alts}
+    return b
+
+
+def expand(case):
+    br = case["branch"]
+    if "spine" in br:
+        case = dict(case, branch=_spine(*br["spine"]))
+    return case
+
+
 def _long_points(seed, count):
     rs = np.random.RandomState(seed)
     vals = rs.randint(-20000, 20000, size=(count, 4))
@@ -126,6 +174,7 @@ def tokens_and_table(case, strip_decor=False):
     """Returns (tokens, nodes).  tokens: list of (kind, text) with kind in
     '(' ')' '|' 'num' 'word' 'comment';  nodes: list of (x, y, z, r, parent) as Fractions + int."""
     toks, nodes = [], []
+    case = expand(case)
 
     def emit_point(vals, parent):
         toks.append(("(", "("))
@@ -166,7 +215,8 @@ def tokens_and_table(case, strip_decor=False):
             toks.extend([("(", "("), ("word", "Color"), ("word", c), (")", ")")])
     toks.extend([("(", "("), ("word", case["label"]), (")", ")")])
     body_start = len(toks) + 1  # first gap inside the body: after the first point's '('... see gap_positions
-    emit_branch(case["branch"], -1)
+    with _deep_recursion():
+        emit_branch(case["branch"], -1)
     toks.append((")", ")"))
     if not strip_decor and case.get("gap_comments"):
         toks = insert_gap_comments(toks, body_start, case["gap_comments"])
@@ -252,5 +302,6 @@ def stats(case):
                         out["after_inner_split"] = True
                     walk(a, depth + 1)
 
-    walk(case["branch"], 0)
+    with _deep_recursion():
+        walk(expand(case)["branch"], 0)
     return out
